@@ -105,6 +105,23 @@ Theorem C08_declared_by_needed :
   /\ ~ In ex_pb (find_all_references_with is_reference_no_declared_by ex_subprogram (declaration ex_body)).
 Proof. exact declared_by_needed. Qed.
 
+(* ---- generic package (fix 28f6f63): declaration, body (end designator, use inside the body) and the use
+   through a package instance form one reference class; the previous is_reference split it ---- *)
+Theorem C08_instance_body_same_set :
+  wf_forest ex_generic = true
+  /\ find_all_references ex_generic ex_gd = [ex_g_pd; ex_g_pb; ex_g_pe; ex_g_in; ex_g_use]
+  /\ find_all_references ex_generic ex_gb = [ex_g_pd; ex_g_pb; ex_g_pe; ex_g_in; ex_g_use]
+  /\ find_all_references ex_generic ex_gi = [ex_g_pd; ex_g_pb; ex_g_pe; ex_g_in; ex_g_use]
+  /\ is_reference ex_gb ex_gi = true.
+Proof. exact instance_body_same_set. Qed.
+
+Theorem C08_is_reference_old_refuted :
+  item_at_cursor ex_generic 1 (mkPos 4 31) = Some (ex_g_use, ex_gi)
+  /\ In ex_g_use (find_all_references_with is_reference_old ex_generic ex_gd)
+  /\ ~ In ex_g_use (find_all_references_with is_reference_old ex_generic ex_gb)
+  /\ ~ In ex_g_pb (find_all_references_with is_reference_old ex_generic ex_gi).
+Proof. exact is_reference_old_refuted. Qed.
+
 (* ---- non-vacuity: the hypotheses are satisfiable by a forest with declaration, body, end
    identifier, nested search_with_pos and a reference from another file ---- *)
 Example C08_example_wf : wf_forest ex_subprogram = true /\ checker ex_subprogram = true.
@@ -146,5 +163,7 @@ Print Assumptions C08_pruning_needs_wf.
 Print Assumptions C08_ref_guard_needs_wf.
 Print Assumptions C08_same_target_needed.
 Print Assumptions C08_declared_by_needed.
+Print Assumptions C08_instance_body_same_set.
+Print Assumptions C08_is_reference_old_refuted.
 Print Assumptions C08_example_wf.
 Print Assumptions C08_example_queries.
